@@ -131,7 +131,7 @@ def bigArg : Nat := 5 -- the caller's *big.Int (bgv.Add / bgv.Mul)
 def fScale : Nat := 8
 def fMeta : Nat := 9
 
-def isScratch (o : Nat) : Bool := o == bq || o == bqp || o == bct || o == bqm
+def isScratch (o : Nat) : Bool := o == bq || o == bqp || o == bct || o == bqm || o == 14
 
 def L (o f : Nat) : Loc := ⟨o, f⟩
 def st (dst : Loc) (fn : Fn) (args : List Loc) : Step := ⟨dst, fn, args⟩
@@ -234,12 +234,67 @@ def bgvTensorSIProg (relin : Bool) (p : Pat) : Prog :=
     [ st (L bqp 1) .gp0 [c2], st (L bqp 2) .gp1 [c2],
       st (L o 0) .add [L o 0, L bqp 1], st (L o 1) .add [L o 1, L bqp 2] ]
    else []) ++
+  -- opOut.Scale = MulScaleInvariant(params, ct0.Scale, ct1.Scale, level)   (fix C05-10: ct1, not tmp1Q0;
+  -- nothing has written a Scale before this line, so it is right under every aliasing pattern)
+  [ st (L o fScale) .sinv [L a fScale, L b fScale] ]
+
+/-- bgv.tensorScaleInvariant BEFORE fix C05-10: the scale is computed at the end from `ct0.Scale` and
+    `tmp1Q0.Scale`, and `tmp1Q0` is `ct0` after the swap (found by this property, kept for the
+    counterexample). -/
+def bgvTensorSIProgOld (relin : Bool) (p : Pat) : Prog :=
+  let a := p.op0; let b := p.op1; let o := p.out
+  let t0 := if b = o then b else a
+  let t1 := if b = o then a else b
+  let c2 := if relin then L bq 2 else L o 2
+  -- modUpAndNTT(tmp0Q0 → buffQMul[0:3])
+  [ st (L bq 0) .intt [L t0 0], st (L bqm 0) .modup [L bq 0],
+    st (L bq 0) .intt [L t0 1], st (L bqm 1) .modup [L bq 0] ] ++
+  (if t0 ≠ t1 then
+    [ st (L bq 0) .intt [L t1 0], st (L bqm 3) .modup [L bq 0],
+      st (L bq 0) .intt [L t1 1], st (L bqm 4) .modup [L bq 0] ] else []) ++
+  -- tensorLowDeg
+  [ st (L bq 0) .mform [L t0 0], st (L bq 1) .mform [L t0 1],
+    st (L bqm 5) .mformM [L bqm 0], st (L bqm 6) .mformM [L bqm 1] ] ++
+  (if t0 = t1 then
+    [ st (L o 0) .mulM [L bq 0, L t0 0], st c2 .mulM [L bq 1, L t0 1],
+      st (L o 1) .mulM [L bq 0, L t0 1], st (L o 1) .add [L o 1, L o 1],
+      st (L bqm 0) .mulM [L bqm 5, L bqm 0], st (L bqm 2) .mulM [L bqm 6, L bqm 1],
+      st (L bqm 1) .mulM [L bqm 5, L bqm 1], st (L bqm 1) .add [L bqm 1, L bqm 1] ]
+   else
+    [ st (L o 0) .mulM [L bq 0, L t1 0], st c2 .mulM [L bq 1, L t1 1],
+      st (L o 1) .mulM [L bq 0, L t1 1], st (L o 1) .mulMAdd [L bq 1, L t1 0, L o 1],
+      st (L bqm 0) .mulM [L bqm 5, L bqm 3], st (L bqm 2) .mulM [L bqm 6, L bqm 4],
+      st (L bqm 1) .mulM [L bqm 5, L bqm 4], st (L bqm 1) .mulMAdd [L bqm 6, L bqm 3, L bqm 1] ]) ++
+  -- quantize ×3
+  [ st (L o 0) .quant [L o 0, L bqm 0], st (L o 1) .quant [L o 1, L bqm 1], st c2 .quant [c2, L bqm 2] ] ++
+  (if relin then
+    [ st (L bqp 1) .gp0 [c2], st (L bqp 2) .gp1 [c2],
+      st (L o 0) .add [L o 0, L bqp 1], st (L o 1) .add [L o 1, L bqp 2] ]
+   else []) ++
   -- opOut.Scale = MulScaleInvariant(params, ct0.Scale, tmp1Q0.Scale, level)   (evaluator.go:1037)
   [ st (L o fScale) .sinv [L a fScale, L t1 fScale] ]
 
 /-! ### bgv.matchScaleThenEvaluateInPlace, degree 1 ⊕ degree 1 -/
 
+/-- a heap object allocated inside a call (`el1.CopyNew()` of fix C05-4) -/
+def heapTmp : Nat := 14
+
+/-- code with fix C05-4: `if el1 == elOut.El() { el1 = el1.CopyNew() }` before the receiver is written -/
 def bgvMatchScaleProg (p : Pat) : Prog :=
+  let a := p.op0; let b := p.op1; let o := p.out
+  let b' := if b = o then heapTmp else b
+  [ st (L bq 5) .r0 [L a fScale, L b fScale],     -- r0, r1 are Go locals: two scratch cells
+    st (L bq 6) .r1 [L a fScale, L b fScale] ] ++
+  (if b = o then [ st (L heapTmp 0) .copy [L b 0], st (L heapTmp 1) .copy [L b 1],
+                   st (L heapTmp fScale) .copy [L b fScale], st (L heapTmp fMeta) .copy [L b fMeta] ] else []) ++
+  [ st (L o 0) .mulS [L bq 5, L a 0],
+    st (L o 1) .mulS [L bq 5, L a 1],
+    st (L o 0) .mulSAdd [L b' 0, L bq 6, L o 0],
+    st (L o 1) .mulSAdd [L b' 1, L bq 6, L o 1],
+    st (L o fScale) .smul [L a fScale, L bq 5] ]
+
+/-- the code BEFORE fix C05-4 (kept for the counterexample) -/
+def bgvMatchScaleProgOld (p : Pat) : Prog :=
   let a := p.op0; let b := p.op1; let o := p.out
   [ st (L bq 5) .r0 [L a fScale, L b fScale],     -- r0, r1 are Go locals: two scratch cells
     st (L bq 6) .r1 [L a fScale, L b fScale],
@@ -251,7 +306,28 @@ def bgvMatchScaleProg (p : Pat) : Prog :=
 
 /-! ### bgv.Add / bgv.Mul with a `*big.Int` operand (op1 is the caller's big.Int, object `bigArg`) -/
 
+/-- code with fixes C05-1 (the scalar is normalised in a NEW big.Int: cell 7 of `bq` is that local) and
+    C05-2 (`opOut.Scale = op0.Scale`) -/
 def bgvAddBigProg (p : Pat) : Prog :=
+  let a := p.op0; let o := p.out
+  [ st (L o fScale) .copy [L a fScale],
+    st (L bq 7) .bigScale [L bigArg 0, L a fScale],
+    st (L bq 7) .bigModT [L bq 7],
+    st (L bq 7) .bigCenter [L bq 7],
+    st (L bq 7) .bigTInv [L bq 7],
+    st (L o 0) .addBig [L a 0, L bq 7] ] ++
+  (if a ≠ o then [st (L o 1) .copy [L a 1]] else [])
+
+def bgvMulBigProg (p : Pat) : Prog :=
+  let a := p.op0; let o := p.out
+  [ st (L o fScale) .copy [L a fScale],
+    st (L bq 7) .bigModT [L bigArg 0],
+    st (L bq 7) .bigCenter [L bq 7],
+    st (L o 0) .mulBig [L a 0, L bq 7],
+    st (L o 1) .mulBig [L a 1, L bq 7] ]
+
+/-- the code BEFORE fix C05-1: the caller's big.Int was normalised in place (kept for the counterexamples) -/
+def bgvAddBigProgOld (p : Pat) : Prog :=
   let a := p.op0; let o := p.out
   [ st (L bigArg 0) .bigScale [L bigArg 0, L a fScale],
     st (L bigArg 0) .bigModT [L bigArg 0],
@@ -260,7 +336,7 @@ def bgvAddBigProg (p : Pat) : Prog :=
     st (L o 0) .addBig [L a 0, L bigArg 0] ] ++
   (if a ≠ o then [st (L o 1) .copy [L a 1]] else [])
 
-def bgvMulBigProg (p : Pat) : Prog :=
+def bgvMulBigProgOld (p : Pat) : Prog :=
   let a := p.op0; let o := p.out
   [ st (L bigArg 0) .bigModT [L bigArg 0],
     st (L bigArg 0) .bigCenter [L bigArg 0],
@@ -364,6 +440,13 @@ def addLists {α : Type} (add : α → α → α) : List α → List α → List
   | x :: xs, y :: ys => add x y :: addLists add xs ys
 
 def addInto {α : Type} (zero : α) (add : α → α → α) (op0 op1 out : List α) : List α :=
+  let degree := max (op0.length - 1) (op1.length - 1)   -- since fix C09-2 the receiver's degree is not taken
+  let out' := resize zero degree out
+  let s := addLists add op0 op1
+  s ++ out'.drop s.length
+
+/-- Add BEFORE fix C09-2: `degree = max(op0.Degree, op1.Degree, opOut.Degree)` -/
+def addIntoOld {α : Type} (zero : α) (add : α → α → α) (op0 op1 out : List α) : List α :=
   let degree := max (max (op0.length - 1) (op1.length - 1)) (out.length - 1)
   let out' := resize zero degree out
   let s := addLists add op0 op1
